@@ -77,6 +77,7 @@ const (
 	ArgNilValue  = "nilvalue"  // Named/Typed with a nil interface value
 	ArgNonFunc   = "nonfunc"   // Converter(42)
 	ArgNilFunc   = "nilfunc"   // ConverterFunc(nil)
+	ArgNilConv   = "nilconv"   // Converter(nil)
 )
 
 // ArgSpec is one option value. Option values are created once per world and
